@@ -104,6 +104,7 @@ jobs:
       - run: echo ${{ «github».«sha» }} ${{ «github»['«ref_name»'] }} ${{ «runner».«os» }} ${{ «vars».«some_var» }} ${{ «strategy».«fail-fast» }}
       - run: echo ${{ «contains»(«github».«ref», 'x') }} ${{ «format»('{0}', «toJSON»(«github».«event»)) }} ${{ «fromJSON»('{"«jk»":1}').«jk» }} ${{ «startsWith»('a', 'b') && «hashFiles»('x') }}
         if: ${{ «always»() && «success»() }}
+      - run: echo ${{ «contains»(«github».«event».«pull_request».«title», 'x') }} ${{ «startsWith»(«github».«head_ref», 'a') }} ${{ «endsWith»(«github».«event».«pull_request».«body», 'b') }}
   «caller»:
     needs: [«prep»]
     uses: ./.github/workflows/callee.yml
